@@ -41,6 +41,27 @@ def keys():
     return _KEYS
 
 
+_RSA2 = None
+
+
+def second_rsa():
+    """a second RSA-2048 key (only for the same-kid / wrong-key histories of C01)"""
+    global _RSA2
+    if _RSA2 is None:
+        from joserfc.jwk import RSAKey
+        _RSA2 = RSAKey.generate_key(2048, {"kid": "rsab"})
+    return _RSA2
+
+
+def with_meta(k, private, **params):
+    """the same key material re-imported with other JWK metadata (kid, alg, use, key_ops)"""
+    from joserfc.jwk import JWKRegistry, OctKey
+    if k.key_type == "oct":
+        return OctKey.import_key(k.raw_value, dict(params))
+    d = {x: v for x, v in k.as_dict(private=private).items() if x not in ("kid", "alg", "use", "key_ops")}
+    return JWKRegistry.import_key(dict(d, **params))
+
+
 def other_key_same_type(name):
     """a different key of the same type/curve (key substitution); None for RSA
     (one RSA key per process: substitution uses a re-import with another kid)"""
